@@ -321,9 +321,12 @@ def _task(arg):
 
 
 def run_generic(prop, tier, level="model_checking", extra=None):
+    from .. import vectors
+
     run = Run(prop, tier, level)
     cfg = tier_config(tier)
     classes = all_classes()
+    run.notes["reference_vectors_verified"] = vectors.verify()
     order = list(range(len(classes)))
     run.rng.shuffle(order)  # VERIF_SEED permutes work order only
     for res in pmap(_task, [(prop, i, cfg) for i in order], chunksize=4):
